@@ -45,7 +45,7 @@ var colC09 *ev.Collector
 func propC09(t *rapid.T) {
 	col := colC09
 	col.Case()
-	cfg := irsem.GenCfg{MaxDepth: rapid.IntRange(1, 5).Draw(t, "depth"), GadgetProb: 25}
+	cfg := irsem.GenCfg{MaxDepth: rapid.IntRange(1, ev.Scale(5, 7)).Draw(t, "depth"), GadgetProb: 25}
 	cfg.ConstOnly = rapid.IntRange(0, 9).Draw(t, "constOnly") < 3
 	e := irsem.GenExpr(t, cfg)
 	before := irsem.String(e)
